@@ -339,6 +339,87 @@ func runC13(c *core.Ctx) {
 	})
 	c.Exhaustive("each of the 256 byte values substituted at every position of a canonical multi-quantum encoding, for every decoder")
 
+	// data after the padding at every offset up to several KiB (a decoder that works in chunks
+	// applies "nothing follows the padding" per chunk): a padded encoding of n bytes followed by a
+	// second encoding, for every n that needs padding
+	c.Job("data-after-padding-at-every-offset", 4600, func(i int, r *core.Rand) {
+		n := i + 1
+		x, y := r.Bytes(n), r.Bytes(1+r.Pick(9))
+		for _, d := range decs {
+			if !d.padded {
+				continue
+			}
+			e := encodeFor(d, x)
+			if !strings.HasSuffix(e, "=") {
+				continue
+			}
+			c13Judge(c, d, e+encodeFor(d, y), "data-after-padding")
+			if i%8 == 0 {
+				c13Judge(c, d, e+"\r\n"+encodeFor(d, y), "data-after-padding+crlf")
+			}
+		}
+	})
+	c.Exhaustive("a padded encoding of n bytes followed by a second encoding, every n in 1..4600 that needs padding, every padded decoder")
+
+	// a foreign byte (or a multi-byte white-space character) INSERTED into a canonical encoding that
+	// also contains line breaks: the decoders skip CR and LF and nothing else
+	inserts := [][]byte{{0xC2, 0x85}, {0xC2, 0xA0}, {0xE2, 0x80, 0xA8}, {0xE2, 0x80, 0xA9}, {0xE3, 0x80, 0x80}, {0xE2, 0x80, 0x83}, {0xEF, 0xBB, 0xBF}}
+	for b := 0; b < 256; b++ {
+		inserts = append(inserts, []byte{byte(b)})
+	}
+	c.Job("inserted-bytes-with-line-breaks", len(inserts)*len(decs)*c.N(2, 20), func(i int, r *core.Rand) {
+		d := decs[i%len(decs)]
+		ins := inserts[(i/len(decs))%len(inserts)]
+		e := encodeFor(d, r.Bytes(3+r.Pick(40)))
+		for _, brk := range []string{"", "\n", "\r\n"} {
+			pos := r.Pick(len(e) + 1)
+			bp := r.Pick(len(e) + 1)
+			var sb strings.Builder
+			for j := 0; j <= len(e); j++ {
+				if j == bp {
+					sb.WriteString(brk)
+				}
+				if j == pos {
+					sb.Write(ins)
+				}
+				if j < len(e) {
+					sb.WriteByte(e[j])
+				}
+			}
+			c13Judge(c, d, sb.String(), "inserted-byte")
+			c13Judge(c, d, sb.String()+brk, "inserted-byte")
+		}
+	})
+
+	// every input length: canonical encodings of 0..90 bytes with 1..4 line breaks ("\n" and "\r\n")
+	// at arbitrary places, so that every total string length up to ~150 occurs with every number of
+	// symbols that can produce it (a fast path keyed on the raw length must still skip line breaks)
+	c.Job("line-breaks-at-every-total-length", 91*4*2*c.N(3, 30), func(i int, r *core.Rand) {
+		n := i % 91
+		k := 1 + (i/91)%4
+		brk := []string{"\n", "\r\n"}[(i/364)%2]
+		x := r.Bytes(n)
+		for _, d := range decs {
+			e := encodeFor(d, x)
+			cut := make([]int, k)
+			for j := range cut {
+				cut[j] = r.Pick(len(e) + 1)
+			}
+			var sb strings.Builder
+			for j := 0; j <= len(e); j++ {
+				for _, cj := range cut {
+					if cj == j {
+						sb.WriteString(brk)
+					}
+				}
+				if j < len(e) {
+					sb.WriteByte(e[j])
+				}
+			}
+			c13Judge(c, d, sb.String(), fmt.Sprintf("line-breaks/total-%d", sb.Len()))
+		}
+	})
+
 	// size-guarded variants at their documented limits
 	c.Job("limits", 1, func(i int, r *core.Rand) {
 		c.Eval(1)
